@@ -729,6 +729,97 @@ impl<'gc> Tgt<'gc> for Swh<'gc> {
     }
 }
 
+// ---- SliceWithHeader<Hdr32, Elem>: an over-aligned header (align 32), so that the allocation pads
+// in front of the per-value metadata — the length must be read from directly in front of the value ---
+
+#[repr(align(32))]
+pub struct Hdr32(pub u64);
+unsafe impl<'gc> Collect<'gc> for Hdr32 {
+    const NEEDS_TRACE: bool = false;
+}
+
+
+pub type Swa<'gc> = SliceWithHeader<Hdr32, Elem<'gc>>;
+pub struct SwaFam;
+impl<'a> Rootable<'a> for SwaFam {
+    type Root = Swa<'a>;
+}
+
+fn check_swa(v: &Swa<'_>, e: &Exp) -> Result<(), String> {
+    if v.header.0 != hdr_of(e.id) {
+        return Err(format!("header reads {:#x}, not the original header of instance {}", v.header.0, e.id));
+    }
+    check_elems(&v.slice, e)
+}
+
+impl<'gc> Tgt<'gc> for Swa<'gc> {
+    type P = SliceWithHeaderPtrMeta;
+    type Th = Hdr32;
+    type U = NoUnsize;
+    const TAG: &'static str = "Elem";
+    const PNAME: &'static str = "slice";
+    fn has_child(e: &Exp) -> bool {
+        e.n > 0
+    }
+    fn tokens(e: &Exp) -> usize {
+        e.n + 1 // the header value and the elements
+    }
+    fn drops_per_value(e: &Exp) -> usize {
+        e.n
+    }
+    fn alloc(mc: &Mutation<'gc>, e: &Exp, c: Gc<'gc, Leaf>) -> GcFat<'gc, Self, (), SliceWithHeaderPtrMeta> {
+        GcSliceWithHeaderBuilder::<Hdr32, Elem<'gc>>::new(e.n).write_header(Hdr32(hdr_of(e.id))).write_slice_with(mc, |i| mk_elem(e, i, c))
+    }
+    fn check(v: &Self, e: &Exp) -> Result<(), String> {
+        check_swa(v, e)
+    }
+    fn check_u(_v: &NoUnsize, _e: &Exp) -> Result<(), String> {
+        Err("unreachable: a slice-with-header target has no unsized form".into())
+    }
+    fn dlen(p: *const Self) -> String {
+        (p as *const [u8]).len().to_string()
+    }
+    fn dlen_u(_p: *const NoUnsize) -> String {
+        "?".into()
+    }
+    fn from_def(p: Gc<'gc, Self>) -> Sh<'gc, Self> {
+        Sh::Def(p)
+    }
+    fn from_def_w(p: GcWeak<'gc, Self>) -> Sh<'gc, Self> {
+        Sh::WDef(p)
+    }
+    fn cast_s<X: ?Sized + 'gc>(_p: Gc<'gc, X>) -> Option<Sh<'gc, Self>> {
+        None
+    }
+    fn cast_w<X: ?Sized + 'gc>(_p: GcWeak<'gc, X>) -> Option<Sh<'gc, Self>> {
+        None
+    }
+    fn cast_own(_p: GcFat<'gc, Self, (), SliceWithHeaderPtrMeta>) -> Option<Sh<'gc, Self>> {
+        None
+    }
+    fn cast_own_w(_p: GcWeak<'gc, Self, GcKind<Fat, (), SliceWithHeaderPtrMeta>>) -> Option<Sh<'gc, Self>> {
+        None
+    }
+    fn unsize(_sh: &Sh<'gc, Self>) -> Option<Sh<'gc, Self>> {
+        None
+    }
+    fn stash_fetch(set: DynamicRootSet<'gc>, mc: &Mutation<'gc>, sh: &Sh<'gc, Self>) -> Option<Sh<'gc, Self>> {
+        match *sh {
+            Sh::Def(p) => Some(Sh::Def(stash_rt::<SwaFam>(set, mc, p))),
+            _ => None,
+        }
+    }
+    fn stash_handle(set: DynamicRootSet<'gc>, mc: &Mutation<'gc>, sh: &Sh<'gc, Self>) -> Option<Box<dyn Handle>> {
+        fn obs<'a>(g: Gc<'a, Swa<'a>>, e: &Exp) -> (usize, Result<(), String>) {
+            (Gc::as_ptr(g) as *const () as usize, check_swa(&*g, e))
+        }
+        match *sh {
+            Sh::Def(p) => Some(Box::new(H::<SwaFam> { root: set.stash::<SwaFam>(mc, p), obs })),
+            _ => None,
+        }
+    }
+}
+
 // ---- str ---------------------------------------------------------------------------------------
 
 impl<'gc> Tgt<'gc> for str {
